@@ -41,7 +41,7 @@ func astWire(re *syntax.Regexp) string {
 // fast-path templates and their one-node mutations (the boundary of each applicability whitelist)
 var c19Seeds = []string{`[a-z]+`, `\d+`, `\w+`, `[0-9a-f]+`, `\s+`, `[a-z]+[0-9]+`, `[a-z]+\d*x?`, `\d{1,3}[a-c]{2}`, `[a-z]{1,2}[0-9]+`, `[a-z]{2,3}[0-9]`, `[0-9]{1,3}[a-c]`, `[ab]+[bc]+`, `[a-z]+[a-z]+[0-9]`, `\w+\s\d+`,
 	`^(foo|bar|qux)`, `^(\d+|UUID|hex32)`, `^(?:GET|POST|PUT)`, `^(get|post)`, `^(kb|mb)`, `^(ab|cd)`, `^([a-c]+|x|yz)`,
-	`^/.*\.php$`, `\A/.*\.php$`, `\Aab.+cd$`, `^api/.*\.json$`, `^.*\.txt$`, `^/.*[\w-]+\.php$`, `^prefix.*suffix$`, `^/.*[\w\s-]+\.txt$`, `^.*\s+END$`, `^x.*[\s]+y$`, `^a.*[^b]+b$`, `^abc`, `^[a-c]x`, `^(?:ab|cd)+x`}
+	`^/.*\.php$`, `\A/.*\.php$`, `\Aab.+cd$`, `^api/.*\.json$`, `^.*\.txt$`, `^/.*[\w-]+\.php$`, `^prefix.*suffix$`, `^/.*[\w\s-]+\.txt$`, `^.*\s+END$`, `^x.*[\s]+y$`, `^a.*[^b]+b$`, `^abc.*bcd$`, `^ab.*ab$`, `^hello.+lox$`, `^aa.*a$`, `^abc`, `^[a-c]x`, `^(?:ab|cd)+x`}
 
 func c19Mutants(r *RNG, p string) []string {
 	out := []string{p}
@@ -169,6 +169,14 @@ func checkC19(r *Report, known []Finding) {
 				}
 				seenM[string(m)] = true
 				hays = append(hays, m)
+				// excisions m[:i]+m[j:]: prefix and suffix literal then meet or overlap (share bytes) in a haystack shorter than both together
+				if len(m) <= 12 {
+					for i := 0; i <= len(m); i++ {
+						for j := i + 1; j <= len(m); j++ {
+							hays = append(hays, append(append([]byte(nil), m[:i]...), m[j:]...))
+						}
+					}
+				}
 				for i := 0; i <= len(m); i++ {
 					for _, ins := range []byte{'\n', ' ', '-'} {
 						hays = append(hays, append(append(append([]byte(nil), m[:i]...), ins), m[i:]...))
@@ -315,7 +323,7 @@ func checkC19(r *Report, known []Finding) {
 				}
 				if at == 0 {
 					if info != nil {
-						got := fmt.Sprint(meta.MatchAnchoredLiteral(h, info))
+						got := guard(5*time.Second, func() string { return fmt.Sprint(meta.MatchAnchoredLiteral(h, info)) })
 						cases = append(cases, cs{p: p, searcher: "AnchoredLiteral", op: "Match", h: h, req: fmt.Sprintf("re-anchlit match %s %s", hexOf(h), wire), got: got})
 						cases = append(cases, cs{p: p, searcher: "AnchoredLiteral", op: "Match", h: h, got: got, prop: true, want: fmt.Sprint(std.Match(h))})
 					}
